@@ -64,3 +64,76 @@ package volume
 //@ ensures[C05] "range" forall kk :: 0 <= kk && kk < len(result) ==> 0 - 1 <= result[kk] && result[kk] <= 1
 //@ ensures[C03] consumed(snapshots) == len(snapshots) && closed(result)
 //@ ensures[C04] forall kk :: 0 <= kk && kk < len(result) ==> hor(result, kk) <= hor(snapshots, kk)
+
+// ---- reports (C14): every column has one value per date row; rows carry that date's close, annotation, outcome ----
+//@ func ChaikinMoneyFlowStrategy.Report
+//@ requires c.ChaikinMoneyFlow.Sum.Period >= 1 && consumed(snapshots) == 0 && (forall k :: 0 <= k && k < len(snapshots) ==> snapshots[k].Close > 0)
+//@ ensures[C14] "column-count" len(result.Columns) == 4
+//@ ensures[C14] "one-value-per-date" len(snapshots) > (c.ChaikinMoneyFlow.IdlePeriod()) ==> (forall i :: 0 <= i && i < len(result.Columns) ==> len(col(result.Columns[i])) == len(result.Date))
+//@ ensures[C14] "dates" len(snapshots) > (c.ChaikinMoneyFlow.IdlePeriod()) ==> len(result.Date) <= len(snapshots) && (forall k :: 0 <= k && k < len(result.Date) ==> result.Date[k] == snapshots[k + len(snapshots) - len(result.Date)].Date)
+//@ ensures[C14] "close" len(snapshots) > (c.ChaikinMoneyFlow.IdlePeriod()) ==> (forall k :: 0 <= k && k < len(result.Date) ==> colnum(result.Columns[0])[k] == snapshots[k + len(snapshots) - len(result.Date)].Close)
+//@ ensures[C14] "annotation" len(snapshots) > (c.ChaikinMoneyFlow.IdlePeriod()) ==> (forall k :: 0 <= k && k < len(result.Date) ==> colstr(result.Columns[2])[k] == (normS(res(ChaikinMoneyFlowStrategy_Compute), k + len(snapshots) - len(result.Date)) == 0 - 1 ? "S" : (normS(res(ChaikinMoneyFlowStrategy_Compute), k + len(snapshots) - len(result.Date)) == 1 ? "B" : "")))
+//@ ensures[C14] "outcome" len(snapshots) > (c.ChaikinMoneyFlow.IdlePeriod()) ==> (forall k :: 0 <= k && k < len(result.Date) ==> colnum(result.Columns[3])[k] == res(Outcome)[k + len(snapshots) - len(result.Date)] * 100)
+//@ ensures[C03] consumed(snapshots) == len(snapshots)
+//@ use nlast_hold(res(ChaikinMoneyFlowStrategy_Compute), len(res(ChaikinMoneyFlowStrategy_Compute)) - len(arg(ActionsToAnnotations, 0, 0)), len(res(ChaikinMoneyFlowStrategy_Compute)) - len(arg(ActionsToAnnotations, 0, 0)))
+//@ use nlast_skip(res(ChaikinMoneyFlowStrategy_Compute), arg(ActionsToAnnotations, 0, 0), len(res(ChaikinMoneyFlowStrategy_Compute)) - len(arg(ActionsToAnnotations, 0, 0)))
+
+//@ func EaseOfMovementStrategy.Report
+//@ requires e.EaseOfMovement.Sma.Period >= 1 && consumed(snapshots) == 0 && (forall k :: 0 <= k && k < len(snapshots) ==> snapshots[k].Close > 0)
+//@ ensures[C14] "column-count" len(result.Columns) == 4
+//@ ensures[C14] "one-value-per-date" len(snapshots) > (e.EaseOfMovement.IdlePeriod()) ==> (forall i :: 0 <= i && i < len(result.Columns) ==> len(col(result.Columns[i])) == len(result.Date))
+//@ ensures[C14] "dates" len(snapshots) > (e.EaseOfMovement.IdlePeriod()) ==> len(result.Date) <= len(snapshots) && (forall k :: 0 <= k && k < len(result.Date) ==> result.Date[k] == snapshots[k + len(snapshots) - len(result.Date)].Date)
+//@ ensures[C14] "close" len(snapshots) > (e.EaseOfMovement.IdlePeriod()) ==> (forall k :: 0 <= k && k < len(result.Date) ==> colnum(result.Columns[0])[k] == snapshots[k + len(snapshots) - len(result.Date)].Close)
+//@ ensures[C14] "annotation" len(snapshots) > (e.EaseOfMovement.IdlePeriod()) ==> (forall k :: 0 <= k && k < len(result.Date) ==> colstr(result.Columns[2])[k] == (normS(res(EaseOfMovementStrategy_Compute), k + len(snapshots) - len(result.Date)) == 0 - 1 ? "S" : (normS(res(EaseOfMovementStrategy_Compute), k + len(snapshots) - len(result.Date)) == 1 ? "B" : "")))
+//@ ensures[C14] "outcome" len(snapshots) > (e.EaseOfMovement.IdlePeriod()) ==> (forall k :: 0 <= k && k < len(result.Date) ==> colnum(result.Columns[3])[k] == res(Outcome)[k + len(snapshots) - len(result.Date)] * 100)
+//@ ensures[C03] consumed(snapshots) == len(snapshots)
+//@ use nlast_hold(res(EaseOfMovementStrategy_Compute), len(res(EaseOfMovementStrategy_Compute)) - len(arg(ActionsToAnnotations, 0, 0)), len(res(EaseOfMovementStrategy_Compute)) - len(arg(ActionsToAnnotations, 0, 0)))
+//@ use nlast_skip(res(EaseOfMovementStrategy_Compute), arg(ActionsToAnnotations, 0, 0), len(res(EaseOfMovementStrategy_Compute)) - len(arg(ActionsToAnnotations, 0, 0)))
+
+//@ func ForceIndexStrategy.Report
+//@ requires f.ForceIndex.Ema.Period >= 1 && consumed(c) == 0 && (forall k :: 0 <= k && k < len(c) ==> c[k].Close > 0)
+//@ ensures[C14] "column-count" len(result.Columns) == 4
+//@ ensures[C14] "one-value-per-date" len(c) > (f.ForceIndex.IdlePeriod()) ==> (forall i :: 0 <= i && i < len(result.Columns) ==> len(col(result.Columns[i])) == len(result.Date))
+//@ ensures[C14] "dates" len(c) > (f.ForceIndex.IdlePeriod()) ==> len(result.Date) <= len(c) && (forall k :: 0 <= k && k < len(result.Date) ==> result.Date[k] == c[k + len(c) - len(result.Date)].Date)
+//@ ensures[C14] "close" len(c) > (f.ForceIndex.IdlePeriod()) ==> (forall k :: 0 <= k && k < len(result.Date) ==> colnum(result.Columns[0])[k] == c[k + len(c) - len(result.Date)].Close)
+//@ ensures[C14] "annotation" len(c) > (f.ForceIndex.IdlePeriod()) ==> (forall k :: 0 <= k && k < len(result.Date) ==> colstr(result.Columns[2])[k] == (normS(res(ForceIndexStrategy_Compute), k + len(c) - len(result.Date)) == 0 - 1 ? "S" : (normS(res(ForceIndexStrategy_Compute), k + len(c) - len(result.Date)) == 1 ? "B" : "")))
+//@ ensures[C14] "outcome" len(c) > (f.ForceIndex.IdlePeriod()) ==> (forall k :: 0 <= k && k < len(result.Date) ==> colnum(result.Columns[3])[k] == res(Outcome)[k + len(c) - len(result.Date)] * 100)
+//@ ensures[C03] consumed(c) == len(c)
+//@ use nlast_hold(res(ForceIndexStrategy_Compute), len(res(ForceIndexStrategy_Compute)) - len(arg(ActionsToAnnotations, 0, 0)), len(res(ForceIndexStrategy_Compute)) - len(arg(ActionsToAnnotations, 0, 0)))
+//@ use nlast_skip(res(ForceIndexStrategy_Compute), arg(ActionsToAnnotations, 0, 0), len(res(ForceIndexStrategy_Compute)) - len(arg(ActionsToAnnotations, 0, 0)))
+
+//@ func MoneyFlowIndexStrategy.Report
+//@ requires m.MoneyFlowIndex.Sum.Period >= 1 && consumed(c) == 0 && (forall k :: 0 <= k && k < len(c) ==> c[k].Close > 0)
+//@ ensures[C14] "column-count" len(result.Columns) == 4
+//@ ensures[C14] "one-value-per-date" len(c) > (m.MoneyFlowIndex.IdlePeriod()) ==> (forall i :: 0 <= i && i < len(result.Columns) ==> len(col(result.Columns[i])) == len(result.Date))
+//@ ensures[C14] "dates" len(c) > (m.MoneyFlowIndex.IdlePeriod()) ==> len(result.Date) <= len(c) && (forall k :: 0 <= k && k < len(result.Date) ==> result.Date[k] == c[k + len(c) - len(result.Date)].Date)
+//@ ensures[C14] "close" len(c) > (m.MoneyFlowIndex.IdlePeriod()) ==> (forall k :: 0 <= k && k < len(result.Date) ==> colnum(result.Columns[0])[k] == c[k + len(c) - len(result.Date)].Close)
+//@ ensures[C14] "annotation" len(c) > (m.MoneyFlowIndex.IdlePeriod()) ==> (forall k :: 0 <= k && k < len(result.Date) ==> colstr(result.Columns[2])[k] == (normS(res(MoneyFlowIndexStrategy_Compute), k + len(c) - len(result.Date)) == 0 - 1 ? "S" : (normS(res(MoneyFlowIndexStrategy_Compute), k + len(c) - len(result.Date)) == 1 ? "B" : "")))
+//@ ensures[C14] "outcome" len(c) > (m.MoneyFlowIndex.IdlePeriod()) ==> (forall k :: 0 <= k && k < len(result.Date) ==> colnum(result.Columns[3])[k] == res(Outcome)[k + len(c) - len(result.Date)] * 100)
+//@ ensures[C03] consumed(c) == len(c)
+//@ use nlast_hold(res(MoneyFlowIndexStrategy_Compute), len(res(MoneyFlowIndexStrategy_Compute)) - len(arg(ActionsToAnnotations, 0, 0)), len(res(MoneyFlowIndexStrategy_Compute)) - len(arg(ActionsToAnnotations, 0, 0)))
+//@ use nlast_skip(res(MoneyFlowIndexStrategy_Compute), arg(ActionsToAnnotations, 0, 0), len(res(MoneyFlowIndexStrategy_Compute)) - len(arg(ActionsToAnnotations, 0, 0)))
+
+//@ func NegativeVolumeIndexStrategy.Report
+//@ requires n.NegativeVolumeIndexEma.Period >= 1 && consumed(c) == 0 && (forall k :: 0 <= k && k < len(c) ==> c[k].Close > 0)
+//@ ensures[C14] "column-count" len(result.Columns) == 5
+//@ ensures[C14] "one-value-per-date" len(c) > (n.NegativeVolumeIndex.IdlePeriod() + n.NegativeVolumeIndexEma.IdlePeriod()) ==> (forall i :: 0 <= i && i < len(result.Columns) ==> len(col(result.Columns[i])) == len(result.Date))
+//@ ensures[C14] "dates" len(c) > (n.NegativeVolumeIndex.IdlePeriod() + n.NegativeVolumeIndexEma.IdlePeriod()) ==> len(result.Date) <= len(c) && (forall k :: 0 <= k && k < len(result.Date) ==> result.Date[k] == c[k + len(c) - len(result.Date)].Date)
+//@ ensures[C14] "close" len(c) > (n.NegativeVolumeIndex.IdlePeriod() + n.NegativeVolumeIndexEma.IdlePeriod()) ==> (forall k :: 0 <= k && k < len(result.Date) ==> colnum(result.Columns[0])[k] == c[k + len(c) - len(result.Date)].Close)
+//@ ensures[C14] "annotation" len(c) > (n.NegativeVolumeIndex.IdlePeriod() + n.NegativeVolumeIndexEma.IdlePeriod()) ==> (forall k :: 0 <= k && k < len(result.Date) ==> colstr(result.Columns[3])[k] == (normS(res(NegativeVolumeIndexStrategy_Compute), k + len(c) - len(result.Date)) == 0 - 1 ? "S" : (normS(res(NegativeVolumeIndexStrategy_Compute), k + len(c) - len(result.Date)) == 1 ? "B" : "")))
+//@ ensures[C14] "outcome" len(c) > (n.NegativeVolumeIndex.IdlePeriod() + n.NegativeVolumeIndexEma.IdlePeriod()) ==> (forall k :: 0 <= k && k < len(result.Date) ==> colnum(result.Columns[4])[k] == res(Outcome)[k + len(c) - len(result.Date)] * 100)
+//@ ensures[C03] consumed(c) == len(c)
+//@ use nlast_hold(res(NegativeVolumeIndexStrategy_Compute), len(res(NegativeVolumeIndexStrategy_Compute)) - len(arg(ActionsToAnnotations, 0, 0)), len(res(NegativeVolumeIndexStrategy_Compute)) - len(arg(ActionsToAnnotations, 0, 0)))
+//@ use nlast_skip(res(NegativeVolumeIndexStrategy_Compute), arg(ActionsToAnnotations, 0, 0), len(res(NegativeVolumeIndexStrategy_Compute)) - len(arg(ActionsToAnnotations, 0, 0)))
+
+//@ func WeightedAveragePriceStrategy.Report
+//@ requires v.WeightedAveragePrice.Sum.Period >= 1 && consumed(c) == 0 && (forall k :: 0 <= k && k < len(c) ==> c[k].Close > 0)
+//@ ensures[C14] "column-count" len(result.Columns) == 4
+//@ ensures[C14] "one-value-per-date" len(c) > (v.WeightedAveragePrice.IdlePeriod()) ==> (forall i :: 0 <= i && i < len(result.Columns) ==> len(col(result.Columns[i])) == len(result.Date))
+//@ ensures[C14] "dates" len(c) > (v.WeightedAveragePrice.IdlePeriod()) ==> len(result.Date) <= len(c) && (forall k :: 0 <= k && k < len(result.Date) ==> result.Date[k] == c[k + len(c) - len(result.Date)].Date)
+//@ ensures[C14] "close" len(c) > (v.WeightedAveragePrice.IdlePeriod()) ==> (forall k :: 0 <= k && k < len(result.Date) ==> colnum(result.Columns[0])[k] == c[k + len(c) - len(result.Date)].Close)
+//@ ensures[C14] "annotation" len(c) > (v.WeightedAveragePrice.IdlePeriod()) ==> (forall k :: 0 <= k && k < len(result.Date) ==> colstr(result.Columns[2])[k] == (normS(res(WeightedAveragePriceStrategy_Compute), k + len(c) - len(result.Date)) == 0 - 1 ? "S" : (normS(res(WeightedAveragePriceStrategy_Compute), k + len(c) - len(result.Date)) == 1 ? "B" : "")))
+//@ ensures[C14] "outcome" len(c) > (v.WeightedAveragePrice.IdlePeriod()) ==> (forall k :: 0 <= k && k < len(result.Date) ==> colnum(result.Columns[3])[k] == res(Outcome)[k + len(c) - len(result.Date)] * 100)
+//@ ensures[C03] consumed(c) == len(c)
+//@ use nlast_hold(res(WeightedAveragePriceStrategy_Compute), len(res(WeightedAveragePriceStrategy_Compute)) - len(arg(ActionsToAnnotations, 0, 0)), len(res(WeightedAveragePriceStrategy_Compute)) - len(arg(ActionsToAnnotations, 0, 0)))
+//@ use nlast_skip(res(WeightedAveragePriceStrategy_Compute), arg(ActionsToAnnotations, 0, 0), len(res(WeightedAveragePriceStrategy_Compute)) - len(arg(ActionsToAnnotations, 0, 0)))
